@@ -1,6 +1,9 @@
 import Orb.Proto
 import Orb.WKB
 import Driver.C01
+import Driver.C02
+import Driver.C03
+import Driver.C04
 
 /-! Driver for C05 (decoders never panic / never over-allocate on hostile input).
     `wkb <hex> => um ; st ; sc-any ; psc-any ; wsc-any ; A <alloc bytes> <stable>`
@@ -53,6 +56,9 @@ def handle (ts : Toks) : String :=
     let (inp, out) := splitArrow rest
     match op with
     | "wkb" => handleWkb inp out
+    | "wkt" => Driver.C04.handleHostile inp out
+    | "mvt" => Driver.C03.handleHostile inp out
+    | "gj" => Driver.C02.handleHostile inp out
     | _ => "bad op " ++ op
   | [] => "bad empty"
 
